@@ -208,4 +208,55 @@ theorem fit_columns_total {χ δ ι μ : Type} [BEq χ] (dflt : δ) (cfg : DistC
       · exact hm
       · exact hall cm hcm
 
+/-! ## Fit histories -/
+
+/-- **`fit` does not touch the configuration**: a successful fit returns an object with the same
+    `distribution`, whose fitted columns are `fitColumns` of that configuration. -/
+theorem fit_preserves_config {χ δ ι μ : Type} [BEq χ] (dflt : δ) (s s' : GMState χ δ μ)
+    (frame : Frame χ δ ι μ) (h : gmFit dflt s frame = .ok s') :
+    s'.distribution = s.distribution ∧
+      ∃ ms, s'.fitted = some ms ∧ fitColumns dflt s.distribution frame = .ok ms := by
+  unfold gmFit at h
+  cases hf : fitColumns dflt s.distribution frame with
+  | error e => rw [hf] at h; cases h
+  | ok ms => rw [hf] at h; cases h; exact ⟨rfl, ms, rfl, rfl⟩
+
+/-- **The distribution used is a function of (configuration, column data) only.**  Over any
+    history of fits of one object (failed fits included), the configuration at the end is the one
+    the user gave, and the outcome of the k-th fit is `fitColumns` of the ORIGINAL configuration on
+    the k-th frame — independent of every earlier fit (in particular of earlier fallbacks). -/
+theorem history_config_independent {χ δ ι μ : Type} [BEq χ] (dflt : δ) (s : GMState χ δ μ)
+    (frames : List (Frame χ δ ι μ)) :
+    (gmFitHistory dflt s frames).2.distribution = s.distribution ∧
+    (gmFitHistory dflt s frames).1 = frames.map (fitColumns dflt s.distribution) := by
+  induction frames generalizing s with
+  | nil => exact ⟨rfl, rfl⟩
+  | cons f fs ih =>
+    unfold gmFitHistory
+    cases hg : gmFit dflt s f with
+    | error e =>
+      obtain ⟨h1, h2⟩ := ih s
+      have hf : fitColumns dflt s.distribution f = .error e := by
+        unfold gmFit at hg
+        cases hf : fitColumns dflt s.distribution f with
+        | error e' => rw [hf] at hg; cases hg; rfl
+        | ok ms => rw [hf] at hg; cases hg
+      simp only [List.map_cons, hf]
+      exact ⟨h1, by rw [h2]⟩
+    | ok s' =>
+      obtain ⟨hd, ms, hms, hf⟩ := fit_preserves_config dflt s s' f hg
+      obtain ⟨h1, h2⟩ := ih s'
+      simp only [List.map_cons, hf, hms]
+      exact ⟨by rw [h1, hd], by rw [h2, hd]⟩
+
+/-- sanity: second fit after a fallback uses the configured distribution again. -/
+example :
+    let frameBad : Frame String String String String :=
+      [("a", fun d => .ok d, fun u => if u = "Picky" then .error .valueError else .ok u, .ok "Gaussian")]
+    let frameGood : Frame String String String String :=
+      [("a", fun d => .ok d, fun u => .ok u, .ok "Gaussian")]
+    (gmFitHistory "Univariate" ⟨.perColumn [("a", "Picky")], none⟩ [frameBad, frameGood]).1
+      = [.ok [("a", "Gaussian")], .ok [("a", "Picky")]] := by
+  decide
+
 end CopVerif.Props.C05
